@@ -14,6 +14,21 @@ def param_names(fi: FuncInfo) -> list[str]:
     return [x.arg for x in list(a.posonlyargs) + list(a.args)]
 
 
+class Freshness2(Freshness):
+    """container literals: a list / tuple / set / dict built in this call is itself fresh, and it is fresh one level deeper
+    than its least fresh member (a dict of shallow copies can be written through down to the copies' own attributes)"""
+
+    def _expr_level(self, v, state=None):
+        st = self.final if state is None else state
+        if isinstance(v, (ast.List, ast.Tuple, ast.Set)):
+            elts = [e.value if isinstance(e, ast.Starred) else e for e in v.elts]
+            return min([99] + [min(99, 1 + self._expr_level(e, st)) for e in elts]) if elts else 99
+        if isinstance(v, ast.Dict):
+            vals = [e for e in v.values if e is not None]
+            return min([99] + [min(99, 1 + self._expr_level(e, st)) for e in vals]) if vals else 99
+        return super()._expr_level(v, state)
+
+
 class Ownership:
     def __init__(self, pm: PM, cg: CallGraph, entries: dict[str, dict[str, int]]):
         """entries: function short -> {param: level} for the public entry points"""
@@ -40,7 +55,7 @@ class Ownership:
                 if fi is None:
                     continue
                 outer = self.fresh.get(fi.parent.short) if fi.parent is not None else None
-                fr = Freshness(self.pm, self.cg, fi, self.levels.get(short, {}), outer=outer)
+                fr = Freshness2(self.pm, self.cg, fi, self.levels.get(short, {}), outer=outer)
                 self.fresh[short] = fr
             for short in self.reach:
                 fi = self.pm.funcs.get(short)
